@@ -178,7 +178,11 @@ class Substitutor(SchemaVisitor[GenericSchema]):
         keys: Dict[Any, Any] = {}
         if schema.props.keys is Nil or (len(schema.props.keys) == 1 and ... in schema.props.keys):
             for key, val in value.items():
-                keys[key] = (... if is_ellipsis(val) else self._from_native(val), False)
+                if is_ellipsis(val):
+                    # `...: ...` keeps the dict relaxed; under a real key `...` means any value
+                    keys[key] = (... if is_ellipsis(key) else AnySchema(), False)
+                else:
+                    keys[key] = (self._from_native(val), False)
             if (schema.props.keys is not Nil) and (... in schema.props.keys):
                 keys[...] = (..., False)
         else:
